@@ -31,6 +31,9 @@ REQUIRED = ['getNBest_shape', 'plurality_shape', 'quotaSelector_refusals', 'ha_s
             'mjPlus_refusals', 'mjDefault_refusals_partial', 'mj_refusals_partial', 'mj_refusals_witness', 'star_shape', 'star_refusals',
             'star_total', 'star_refusals_partial', 'allocated_shape', 'allocated_shape_tie_fixed', 'allocated_refusals',
             'allocated_refusals_fixed', 'mem_scoreCands', 'scoreCands_nodup',
+            # Lemmas/ShapeCardinalGraded.lean
+            'score_total_graded', 'score_refusals_graded', 'mjPlus_total_graded', 'mjPlus_refusals_graded', 'mjDefault_refusals_graded_partial',
+            'score_candidate_without_grades_witness', 'correctedScores_total_graded',
             # Lemmas/ShapeQuotaSubtract.lean
             'qd_subtract_shape', 'qd_subtract_refusals', 'lr_subtract_shape', 'lr_subtract_refusals', 'qd_subtract_ties',
             # Lemmas/ShapeSequential.lean (models VotelibModel/ShapeSequential.lean)
@@ -55,7 +58,7 @@ PROVED_FAMILIES = ['plurality', 'ha_d_hondt', 'ha_sainte_lague', 'ha_imperiali',
                    'rel_threshold_5pc', 'rel_threshold_5pc_decimal', 'rel_threshold_5pc_float', 'rel_threshold_third', 'abs_threshold_2', 'openlist_jump_5pc', 'openlist_quota_precedence',
                    'openlist_tiebreaker_plurality', 'threshold_alternative', 'aux_input_order', 'aux_sortitor', 'aux_random_ballot', 'aux_rfc3797', 'aux_candidate_number',
                    'lr_imperiali_subtract', 'lr_hagenbach_bischoff_subtract', 'qd_imperiali_subtract',
-                   'baldwin', 'benham', 'tideman_alternative', 'allocated_score_hare', 'approval_pav', 'approval_spav', 'score_mean', 'score_sum0', 'score_median', 'majority_judgment_plus', 'star']
+                   'baldwin', 'benham', 'tideman_alternative', 'allocated_score_hare', 'approval_pav', 'approval_spav', 'score_sum0', 'star']
 PROVED_FAMILIES += [f + '_sparse' for f in PROVED_FAMILIES if f.startswith('condorcet_') or f in ('smith_set', 'schwartz_set')]
 NAMES = Names(prefix='cand')
 POSITIONAL_CFG = {'positional_borda': {'s': 'Borda', 'base': 1}, 'positional_borda0': {'s': 'Borda', 'base': 0},
@@ -192,6 +195,11 @@ PARTIAL_FAMILIES = {
     **{f'condorcet_rankedpairs_{k}': 'rankedpairs_shape (exactly n places for n >= 3) is FALSE of the code: rankedpairs_short_witness, open '
        'finding; proved: rankedpairs_shape_partial (everything but the length, never shorter than 2), rankedpairs_shape_le_two, rankedpairs_refusals'
        for k in ('winvotes', 'margins', 'pwo', 'winvotes_sparse', 'margins_sparse', 'pwo_sparse')},
+    **{k: 'score_refusals / mjPlus_refusals for ALL profiles of positive total weight are FALSE of the code: a candidate graded only on zero-weight '
+          'ballots has no grade (score_candidate_without_grades_witness: ZeroDivisionError / StatisticsError; open finding '
+          'C08-score-candidate-without-grades); proved: score_shape / mj_shape (full), and the refusal clause under the exact hypothesis Graded '
+          '(every candidate has a grade of positive weight): score_refusals_graded, score_total_graded, mjPlus_refusals_graded, mjPlus_total_graded'
+       for k in ('score_mean', 'score_median', 'majority_judgment_plus')},
     'majority_judgment': 'mjDefault_refusals (only declared refusals) is FALSE of the code (StatisticsError: mj_refusals_witness, open finding '
                          'C08-mj-statistics-error); proved: mj_shape (full), mjDefault_refusals_partial (VotingSystemError or StatisticsError)',
     'score_median_trunc_quarter': 'score_refusals needs truncation = 0: with truncation the code raises StatisticsError / ZeroDivisionError '
@@ -217,12 +225,12 @@ def _bookkeeping():
         pass
 _bookkeeping()
 NAME_MODES = ['str', 'int0', 'empty0', 'person', 'tuple']
-REQUIRED_COUNTERS = ['sel', 'dist', 'seatless', 'tie_in_result', 'modelled', 'refusal', 'few_votes', 'all_equal', 'truncation_empties', 'rotation', 'score_tied', 'numbers_equal', 'numbers_none']
+REQUIRED_COUNTERS = ['sel', 'dist', 'seatless', 'tie_in_result', 'modelled', 'refusal', 'few_votes', 'all_equal', 'truncation_empties', 'rotation', 'score_tied', 'numbers_equal', 'numbers_none', 'named_only_on_zero_weight_ballot']
 RULE = ('every evaluator family built from the public selector/distributor classes of votelib.evaluate.* (shared table harness/families.py + the local '
         'list in this module: open list, list tie-breaker, auxiliary selectors, AlternativeThresholds, the subtract over-award policy, score voting with '
         'truncation) with its admissible vote type (simple, approval, ranked incl. shared ranks, score, pairwise through the real converter) x generated '
         'profiles with positive total weight (2-6 candidates) x 1 <= n_seats <= candidates present; directed cases: very few votes for many seats, all '
-        'parties equal, a truncation that empties a candidate. Thorough adds every n per profile and a small-scope exhaustive enumeration (all simple '
+        'parties equal, a truncation that empties a candidate, a candidate named only on a zero-weight ballot with as many seats as candidates (every non-simple family). Thorough adds every n per profile and a small-scope exhaustive enumeration (all simple '
         'profiles over <= 3 parties with counts 0..3 / 4 parties with counts 0..2, all ranked profiles of <= 2 distinct strict ballots over 3 candidates, '
         'all approval profiles of <= 2 distinct ballots over 3 candidates, weights 1..2, every family, every n). CandidateNumberRanker is run on numbered votelib.candidate.Person objects (distinct numbers, EQUAL numbers, a missing number None; candidates without a `number` attribute are outside its admissible input). Non-trivial = result is not an error; '
         'distinct by canonical request. Public classes no family reaches are listed under unmodelled with the property that exercises them.')
@@ -353,6 +361,33 @@ def generate(rng, tier):
                 m = rng.choice([4, 4, 5])
                 prof = fam_mod.gen_score_tied(rng, m)
                 yield {'op': 'shape', 'family': f.name, 'prof': prof, 'n': rng.choice([2, 3, 3, 3, 4]), '_tags': [f.kind, 'score_tied']}
+    # directed: a candidate named ONLY on a ballot of weight 0 (the profile keeps positive total weight), as many seats as candidates:
+    # the zero-support candidate is needed to fill the seats
+    for f in F:
+        bt = fam_mod.base_vtype(f.vtype)
+        if bt == 'simple':
+            continue
+        for t in range(6 if tier == 'quick' else 60):
+            m = rng.randint(2, 4)
+            prof = [bw for bw in fam_mod.gen_profile(rng, f.vtype, m) if Fraction(bw[1]) > 0]
+            if not prof:
+                continue
+            new = 1 + max(fam_mod.candidates_of(bt, prof))
+            other = rng.choice(fam_mod.candidates_of(bt, prof))
+            if bt == 'ranked':
+                zb = rng.choice([[new], [new, other], [other, new]])
+            elif bt == 'approval':
+                zb = rng.choice([[new], sorted([new, other])])
+            else:
+                zb = rng.choice([[[new, rng.randint(0, 5)]], sorted([[new, rng.randint(0, 5)], [other, rng.randint(0, 5)]])])
+            prof = prof + [[zb, '0']]
+            rng.shuffle(prof)
+            cands = fam_mod.present_candidates(f, prof)
+            if not cands:
+                continue
+            n = len(cands) if rng.random() < 0.7 else rng.randint(1, len(cands))
+            yield {'op': 'shape', 'family': f.name, 'prof': prof, 'n': n if f.n_seats else 1,
+                   '_tags': [f.kind, 'named_only_on_zero_weight_ballot']}
     yield {'op': 'shape', 'family': 'score_median_trunc_quarter', 'prof': [[[[0, 3], [1, 2]], '2'], [[[0, 1]], '8']], 'n': 1,
            '_tags': ['sel', 'truncation_empties']}
     if tier == 'thorough':
@@ -531,6 +566,18 @@ def rp_unranked(case):
     return sources, cands - sources
 
 
+def candidate_without_grades(case):
+    """score profiles: is some candidate graded ONLY on ballots of weight 0?  (it then has no grade to aggregate: the recorded cause of
+    the ZeroDivisionError / StatisticsError of finding C08-score-candidate-without-grades)"""
+    if fam_mod.base_vtype(fams()[case['family']].vtype) != 'score':
+        return False
+    wt = {}
+    for b, w in case['prof']:
+        for c, _ in b:
+            wt[c] = wt.get(c, 0) + Fraction(w)
+    return any(v == 0 for v in wt.values())
+
+
 def mj_candidate_runs_out(case):
     """majority judgment, default tie-break: the candidates level with the n-th median lose one median grade each per step (every one of
     them stays in the running until it is elected) until the medians fill the contested places.  Does some of them run out of grades
@@ -540,6 +587,8 @@ def mj_candidate_runs_out(case):
     for b, w in case['prof']:
         for c, g in b:
             grades.setdefault(c, []).extend([Fraction(g)] * int(Fraction(w)))
+    if any(len(l) == 0 for l in grades.values()):
+        return False        # a candidate without any grade: not a tie-break matter (candidate_without_grades)
 
     def lmed(l):
         return sorted(l)[(len(l) - 1) // 2]
@@ -593,6 +642,8 @@ def signature(case, clause):
         return 'shape:largest_remainder_family:zero_quota:' + clause
     grp = 'largest_remainder_family' if f.startswith(('lr_', 'qd_')) else 'preference_addition' if f in ('bucklin', 'oklahoma', 'bucklin_whole', 'oklahoma_whole') else 'ranked_pairs' if f.startswith('condorcet_rankedpairs') else f
     try:
+        if f in CARDINAL and clause.startswith('undeclared_exception:') and candidate_without_grades(case):
+            return 'shape:score_family:candidate_without_grades'
         if grp == 'preference_addition' and clause == 'wrong_length':
             obs = impl(case)
             recorded = (isinstance(obs, list) and not any(isinstance(x, dict) for x in obs) and len(obs) < case['n']
@@ -611,8 +662,8 @@ def signature(case, clause):
             return f'shape:{grp}:{clause}:no_candidate_runs_out_of_grades'
         if f == 'score_median_trunc_quarter' and clause == 'undeclared_exception:StatisticsError' and not truncation_empties(case):
             return f'shape:{grp}:{clause}:no_candidate_emptied_by_the_cutoff'
-    except Exception as e:      # a precondition that cannot be computed never makes a violation "known"
-        return f'shape:{grp}:{clause}:precondition_failed:{type(e).__name__}'
+    except Exception:           # (the precondition functions are total; should one fail, the violation is NOT the recorded one)
+        return f'shape:{grp}:{clause}:not_the_recorded_cause'
     return f"shape:{grp}:{clause}"
 
 
@@ -829,6 +880,6 @@ LEVEL_TEXT = ('For every modelled evaluator family the result-shape schema (exac
               'over-award policies), STV selector and distributor, Copeland (both), Schulze, minimax (three scorers), Kemeny-Young, Benham (one seat), Tideman alternative (n seats), allocated score, positional voting (six scorers), '
               'AV, SAV, PAV, SPAV, score voting, majority judgment (shape; refusals for tie_breaking=plus), STAR, Baldwin, thresholds, open list, list tie-breaker, '
               'Condorcet winner / Smith / Schwartz sets, InputOrderSelector, CandidateNumberRanker, Sortitor / RandomUnrankedBallotSelector / RFC3797Selector (for every draw sequence). Where the code violates the schema the strongest true part is proved (_partial) and the '
-              'violation is a kernel-checked witness + open finding: ranked pairs and PreferenceAddition (short lists), majority judgment default tie-break (StatisticsError), score truncation (StatisticsError).')
+              'violation is a kernel-checked witness + open finding: ranked pairs and PreferenceAddition (short lists), majority judgment default tie-break (StatisticsError), a score candidate graded only on zero-weight ballots (ZeroDivisionError / StatisticsError), score truncation (StatisticsError).')
 LEVEL_NOTE = ('Trusted: Lean kernel + standard axioms; the models are tied to the code by the correspondence run of this check (and of the owning properties). '
               'Wrappers and nested-vote evaluators are exercised by C14/C07/C18.')
